@@ -183,7 +183,7 @@ Proof.
   - apply EB.
 Qed.
 
-Theorem G_structure_same (g : graph Z) :
+Theorem G_structure_same_sec (g : graph Z) :
   dims (G_out cfg g) = dims (G_out cfg' g)
   /\ ordering (G_out cfg g) = ordering (G_out cfg' g)
   /\ levels (G_out cfg g) = levels (G_out cfg' g).
@@ -197,3 +197,10 @@ Proof.
 Qed.
 
 End Struct.
+
+Theorem G_structure_same (cfg : kcfg) (ins' : list (string * tensor Z)) (g : graph Z) :
+  same_ins (k_ins cfg) ins' ->
+  dims (G_out cfg g) = dims (G_out (with_ins cfg ins') g)
+  /\ ordering (G_out cfg g) = ordering (G_out (with_ins cfg ins') g)
+  /\ levels (G_out cfg g) = levels (G_out (with_ins cfg ins') g).
+Proof. intros H. exact (G_structure_same_sec cfg ins' H g). Qed.
